@@ -66,6 +66,14 @@ namespace sqf::fileio
             auto res =  get_info_virtual(view, current);
             if (!res.has_value())
             {
+                // A relative request made from a file whose virtual path is known has been
+                // resolved against that path already; its physical location must not give
+                // it a second, different meaning.
+                bool relative = !view.empty() && view[0] != '/' && view[0] != '\\' && !(view.length() >= 2 && view[1] == ':');
+                if (relative && !current.virtual_.empty())
+                {
+                    return {};
+                }
                 return get_info_physical(view, current);
             }
             return res;
